@@ -195,7 +195,7 @@ pub mod verif_hooks {
     //! verification hooks, compiled only with `--cfg bpaf_verif`
     pub use crate::buffer::verif_take_doc;
     #[cfg(feature = "autocomplete")]
-    pub use crate::complete_gen::{verif_arg_matches, verif_cmd_matches};
+    pub use crate::complete_gen::{verif_arg_matches, verif_cmd_matches, verif_complete, VerifComp};
     #[cfg(feature = "autocomplete")]
     pub use crate::complete_shell::verif_render_shell;
 }
